@@ -112,7 +112,7 @@ def fp(x, _depth=0):
 
 def jsonable(x, depth=0):
     """Best-effort conversion of arbitrary python values for evidence / replay files."""
-    if depth > 8:
+    if depth > 60:
         return repr(x)[:200]
     if x is None or isinstance(x, (bool, int, str)):
         return x
@@ -128,6 +128,8 @@ def jsonable(x, depth=0):
         return {str(k): jsonable(v, depth + 1) for k, v in x.items()}
     if isinstance(x, (list, tuple, set, frozenset)):
         return [jsonable(v, depth + 1) for v in x]
+    if isinstance(x, pd.Timestamp):
+        return x.isoformat()
     if isinstance(x, (pd.DataFrame, pd.Series, pd.Index)):
         s = repr(x)
         return s[:1500]
